@@ -12,7 +12,8 @@ import (
 // HugRings draws a shell of 4..8 long edges (regular, radius r about c) and a
 // triangular hole (p, q, in): p and q are interpolated on one shell edge and
 // moved inwards ulp by ulp until the exact orientation test puts them strictly
-// left of that edge, in is halfway to the centre. The hole is strictly inside
+// left of that edge, in lies half as far beyond the centre (so the hole contains
+// the centre, like every ring of a RingsPolygon). The hole is strictly inside
 // the shell, but one of its edges is within rounding of a shell edge, so the
 // two loops' bounding rectangles differ by rounding only on that side.
 func HugRings(t *rapid.T, l string, c s2.Point, r float64) (RingsPolygon, bool) {
@@ -41,7 +42,7 @@ func HugRings(t *rapid.T, l string, c s2.Point, r float64) (RingsPolygon, bool) 
 	}
 	p, ok1 := inside(s2.Interpolate(f1, a, b))
 	q, ok2 := inside(s2.Interpolate(f2, a, b))
-	in := s2.Interpolate(0.5, s2.Interpolate((f1+f2)/2, a, b), c)
+	in := Fix(s2.Interpolate(1.5, s2.Interpolate((f1+f2)/2, a, b), c), c)
 	if !ok1 || !ok2 || p == q {
 		return RingsPolygon{}, false
 	}
